@@ -46,7 +46,9 @@ def handle0 : Handler := fun input impl =>
   match getS kv "mode" with
   | "locks" =>
     ("static", match judgeStatic tbl Pandora.Gen.Locks.closures Pandora.Gen.Locks.handoverSites Pandora.Gen.Locks.pkgVars Pandora.Gen.Locks.ammoFlows Pandora.Gen.Locks.pooledEscapes Pandora.Gen.Locks.ammoWrites with
-      | "ok" => judgeLoop Pandora.Gen.InstLoop.iterBody
+      | "ok" => (match judgeComponentVars Pandora.Gen.Locks.pkgVars with
+        | "ok" => judgeLoop Pandora.Gen.InstLoop.iterBody
+        | v => v)
       | v => v)
   | "alias" =>
     let c := cfgOf kv
